@@ -6,6 +6,8 @@ from fractions import Fraction
 
 import numpy as np
 
+from .. import shapes as S
+
 from ..core import fmt, fmt_list, parse_rats, frac, err_kind, close, vclose, floats
 from . import c01
 
@@ -74,7 +76,7 @@ def request(c):
 
 def _kernel(x, y, I, rule, alpha):
     from traffic_weaver.match import _integral_matching_stretch
-    return [float(v) for v in _integral_matching_stretch(np.array(floats(x)), np.array(floats(y)),
+    return [float(v) for v in _integral_matching_stretch(S.arr(floats(x)), S.arr(floats(y)),
                                                            integral_value=float(I), integral_method=rule, alpha=alpha)]
 
 
